@@ -161,7 +161,7 @@ def judge (managed : Bool) (L : List Leaf) (ps : List P) (formula : Option Top) 
       | some (.expr f) => if major == majorOfFormula L rows f then none else some "formula-major"
       | some _ => if major || requiredOk managed rows st major minor then none else some "not-a-formula"
 
-/-! ### Root-cause tags (used to key the known findings) -/
+/-! ### Root-cause tags (key the signatures of the two repaired findings, should they return) -/
 
 mutual
 /-- the formula holds an `any` / `all` call with further positional arguments or keywords (which the current code
